@@ -274,6 +274,71 @@ pub fn recv_filter(
 }
 
 // =====================================================================================================
+// RECV-TAIL — the rest of recv_many_chan: the coordinator blocks until an offered channel is ready; it gives up
+// (returns None, which makes processing_loop stop) ONLY when nothing could be offered.  C06: it does not stop before
+// every source has been drained merely because a worker is slow.
+#[verifier::external_body]
+pub struct ChanDatum { _p: u8 }
+#[verifier::external_body]
+pub struct RecvError { _p: u8 }
+#[verifier::external_body]
+pub struct SelectTimeoutError { _p: u8 }
+#[verifier::external_body]
+pub struct TrySelectError { _p: u8 }
+#[verifier::external_body]
+pub struct Duration { _p: u8 }
+pub type RecvResult4 = core::result::Result<ChanDatum, RecvError>;
+#[verifier::external_body]
+pub struct SelectedOperation { _p: u8 }
+impl SelectedOperation {
+    pub uninterp spec fn idx(&self) -> usize;
+    #[verifier::external_body]
+    pub fn index(&self) -> (r: usize) ensures r == self.idx() { unimplemented!() }
+    #[verifier::external_body]
+    pub fn recv(self, r: &ChanRecvDatum) -> RecvResult4 { unimplemented!() }
+}
+impl Select {
+    // assumed (crossbeam): select() blocks until one registered operation is ready and returns it; the timed and
+    // non-blocking forms may instead give up
+    #[verifier::external_body]
+    pub fn select(&mut self) -> (o: SelectedOperation)
+        requires old(self).n > 0
+        ensures (o.idx() as int) < old(self).n, final(self).n == old(self).n
+    { unimplemented!() }
+    #[verifier::external_body]
+    pub fn select_timeout<T>(&mut self, timeout: T) -> (r: core::result::Result<SelectedOperation, SelectTimeoutError>)
+        ensures r is Ok ==> (r->Ok_0.idx() as int) < old(self).n
+    { unimplemented!() }
+    #[verifier::external_body]
+    pub fn try_select(&mut self) -> (r: core::result::Result<SelectedOperation, TrySelectError>)
+        ensures r is Ok ==> (r->Ok_0.idx() as int) < old(self).n
+    { unimplemented!() }
+}
+//@opaque_consts_here
+
+pub fn recv_tail<'a>(
+    pathid_chans: &'a MapPathIdChanRecvDatum,
+    map_index_pathid: &mut MapIndexToPathId,
+    filter_: &SetPathId,
+    select: &mut Select,
+) -> (r: Option<(PathId, RecvResult4)>)
+    requires
+        offered_ok(pathid_chans@, filter_@, old(map_index_pathid)@, old(select).n),
+        old(select).n >= 0, old(map_index_pathid)@.dom().finite(),
+        old(select).n == 0 <==> old(map_index_pathid)@.len() == 0,
+    ensures
+        // gives up only if no channel could be offered
+        r is None ==> old(select).n == 0,
+        // what is received comes from a live source that has no pending message
+        r is Some ==> pathid_chans@.contains_key(r.unwrap().0) && !filter_@.contains(r.unwrap().0),
+{
+    proof { broadcast use group_btree_axioms; broadcast use vstd::std_specs::hash::group_hash_axioms; }
+//@cut slice path=src/bin/s4.rs fn=processing_loop anchor="if map_index_pathid.is_empty()" take=rest_of_block label=RECVTAIL
+//@replace "crossbeam_channel::SelectedOperation" "SelectedOperation" count=*
+//@end
+}
+
+// =====================================================================================================
 // SEL (Verus side) — the selection statement.  `Iterator::min_by` itself is decided by unit SEL (Kani, bounded
 // in #sources, running core's real adapter); here its result is ASSUMED to be the earliest entry, least key among
 // ties, and the real match arms that unpack it are checked.
@@ -283,12 +348,29 @@ pub open spec fn is_sel(pending: Map<PathId, (LogMessage, IsLastLogMessage)>, p:
             instant(pending[p].0.dt_spec()) < instant(pending[q].0.dt_spec())
             || (instant(pending[p].0.dt_spec()) == instant(pending[q].0.dt_spec()) && p <= q)
 }
+//@if path=src/bin/s4.rs regex="type\s+MapPathIdDatum\s*=\s*BTreeMap\s*<"
+// the pending-message map is a BTreeMap: iteration is in ascending PathId order, so the FIRST minimal element that
+// Iterator::min_by returns is the one with the least PathId (decided for the real expression by unit SEL)
 #[verifier::external_body]
 pub fn verif_min_by_dt<'a>(m: &'a MapPathIdDatum) -> (r: Option<(&'a PathId, &'a (LogMessage, IsLastLogMessage))>)
     ensures
         r is None <==> m@.dom() =~= Set::<PathId>::empty(),
         r is Some ==> is_sel(m@, *r.unwrap().0) && *r.unwrap().1 == m@[*r.unwrap().0],
 { unimplemented!() }
+//@else
+// the pending-message map is NOT a BTreeMap: its iteration order is unspecified, so all that Iterator::min_by
+// guarantees is SOME entry with a minimal instant -- no tie rule
+pub open spec fn is_some_min(pending: Map<PathId, (LogMessage, IsLastLogMessage)>, p: PathId) -> bool {
+    &&& pending.contains_key(p)
+    &&& forall|q: PathId| #[trigger] pending.contains_key(q) ==> instant(pending[p].0.dt_spec()) <= instant(pending[q].0.dt_spec())
+}
+#[verifier::external_body]
+pub fn verif_min_by_dt<'a>(m: &'a MapPathIdDatum) -> (r: Option<(&'a PathId, &'a (LogMessage, IsLastLogMessage))>)
+    ensures
+        r is None <==> m@.dom() =~= Set::<PathId>::empty(),
+        r is Some ==> is_some_min(m@, *r.unwrap().0) && *r.unwrap().1 == m@[*r.unwrap().0],
+{ unimplemented!() }
+//@endif
 
 #[verifier::exec_allows_no_decreases_clause]
 pub fn sel_statement<'a>(map_pathid_datum: &'a MapPathIdDatum) -> (r: (&'a PathId, &'a LogMessage, IsLastLogMessage))
